@@ -1358,7 +1358,7 @@ var impureIn = map[string]bool{
 
 var pureExtra = map[string]bool{
 	"crypto/hmac.hmac.Equal": true, "net/http.Header.Get": true, "net/http.http.StatusText": true,
-	"net/http.Request.BasicAuth": true, "net/http.Request.Context": true,
+	"net/http.Request.BasicAuth": true, "net/http.Request.Context": true, "net/http.ResponseWriter.Header": true,
 }
 
 var pureModulePrefixes = []string{".Get", ".Is", ".Has", ".Matches", ".ExactOne", ".With", ".To", ".String", ".Error", ".Unwrap", ".Cause", ".Public"}
